@@ -29,7 +29,7 @@ def _ignore(_dir, names):
     return [n for n in names if n == "__pycache__" or n.endswith((".so", ".pyc", ".pyd"))]
 
 
-def build_shadow(tag: str, with_rust: bool = False) -> str:
+def build_shadow(tag: str, with_rust: bool = False, do_import: bool = True) -> str:
     """Copy the package, optionally build the extension, import-check it."""
     global _shadow_dir
     if _shadow_dir is not None:
@@ -56,6 +56,8 @@ def build_shadow(tag: str, with_rust: bool = False) -> str:
     for k in [k for k in sys.modules if k == "solvor" or k.startswith("solvor.")]:
         del sys.modules[k]
     os.environ["SOLVOR_VERIF"] = "1"  # hooks on (MANIFEST.hooks.guard)
+    if not do_import:
+        return d
     try:
         import solvor  # noqa: F401
     except Exception as e:  # a tree that does not import is a harness matter
